@@ -19,8 +19,8 @@ lvars == <<kind, comps, tagging, fault, phase, l, extAt>>
 ChoiceIB == TRef("CIB")           \* CHOICE { INTEGER, BOOLEAN }  (untagged: transparent)
 ChoiceTT == TRef("CTT")           \* CHOICE { [0] INTEGER, [1] BOOLEAN }
 Palette ==
-  {Int0, TBool, TTag("C", 0, "D", Int0), TTag("C", 0, "D", TBool), ChoiceIB}
-  \cup (IF Rich THEN {TTag("C", 1, "D", TBool), ChoiceTT, TTag("A", 1, "D", Int0), TRef("RI"), TTag("C", 1, "I", TNull),
+  {Int0, TBool, TTag("C", 0, "D", Int0), TTag("C", 0, "D", TBool), ChoiceIB, TRef("RI")}
+  \cup (IF Rich THEN {TTag("C", 1, "D", TBool), ChoiceTT, TTag("A", 1, "D", Int0), TTag("C", 1, "I", TNull),
                       TTag("C", 0, "E", ChoiceIB), TStr("IA5", CNone, <<>>)} ELSE {})
 Flags == {"M", "O"}
 \* import-*: the last component refers to a type Ext imported from a second module LX: properly ("import-ok": LX
@@ -62,22 +62,28 @@ EnumDef == CASE fault = "dup-enum-name" -> TEnum(<<EItem("a", 0), EItem("b", 1),
              [] fault = "dup-enum-name-ext" -> TEnum(<<EItem("a", 0), EItem("b", 1)>>, TRUE, <<EItem("c", 2), EItem("c", 3)>>)
              [] fault = "dup-enum-value-ext" -> TEnum(<<EItem("a", 0), EItem("b", 1)>>, TRUE, <<EItem("c", 5), EItem("d", 5)>>)
              [] OTHER -> TEnum(<<EItem("a", 0), EItem("b", 1)>>, FALSE, <<>>)
-TheModule ==
+ModuleOf(cs) ==
   [name |-> "LG", tagging |-> tagging,
    \* TOP comes first: the types it refers to are defined after it
-   defs |-> << [n |-> "TOP", t |-> IF extAt = 0 THEN [k |-> kind, comps |-> Faulty(comps), ext |-> FALSE, adds |-> <<>>]
-                                   ELSE [k |-> kind, comps |-> SubSeq(Faulty(comps), 1, extAt), ext |-> TRUE,
-                                         adds |-> SubSeq(Faulty(comps), extAt + 1, Len(comps))]],
+   defs |-> << [n |-> "TOP", t |-> IF extAt = 0 THEN [k |-> kind, comps |-> cs, ext |-> FALSE, adds |-> <<>>]
+                                   ELSE [k |-> kind, comps |-> SubSeq(cs, 1, extAt), ext |-> TRUE,
+                                         adds |-> SubSeq(cs, extAt + 1, Len(cs))]],
                [n |-> "CIB", t |-> TChoice(<<Comp("i", Int0, "M"), Comp("b", TBool, "M")>>, FALSE, <<>>)],
                [n |-> "CTT", t |-> TChoice(<<Comp("i", TTag("C", 0, "D", Int0), "M"), Comp("b", TTag("C", 1, "D", TBool), "M")>>, FALSE, <<>>)],
                [n |-> "RI", t |-> Int0],
                [n |-> "EN", t |-> EnumDef] >>]
+TheModule == ModuleOf(Faulty(comps))
+\* the same module with every component of the alias type RI given a type that clashes with nothing (used only to
+\* delimit a recorded defect of asn1c: a reference to a non-CHOICE type against an untagged CHOICE)
+NoAlias(cs) == [i \in DOMAIN cs |-> IF cs[i].t = TRef("RI") THEN [cs[i] EXCEPT !.t = TReal] ELSE cs[i]]
 \* legality with the import resolved (Ext ::= OCTET STRING in LX) or not
 ImportResolves == fault \in {"import-ok", "import-ok-exports-all"}
 WithExt(mod) == [mod EXCEPT !.defs = @ \o <<[n |-> "Ext", t |-> TOctets(CNone)]>>]
-Verdict(L(_)) == IF fault \in ImportFaults THEN (ImportResolves /\ L(WithExt(TheModule))) ELSE L(TheModule)
+VerdictOn(L(_), m) == IF fault \in ImportFaults THEN (ImportResolves /\ L(WithExt(m))) ELSE L(m)
+Verdict(L(_)) == VerdictOn(L, TheModule)
 \* AUTOMATIC tagging makes CIB / CTT themselves automatically tagged (CIB gets [0],[1]; CTT is tagged already)
-Export == phase = "done" => PrintT(<<"SCN", ToJson([mod |-> TheModule, fault |-> fault, legal |-> Verdict(Legal), legal_split |-> Verdict(LegalSplit)])>>)
+Export == phase = "done" => PrintT(<<"SCN", ToJson([mod |-> TheModule, fault |-> fault, legal |-> Verdict(Legal), legal_split |-> Verdict(LegalSplit),
+                                                         legal_noalias |-> VerdictOn(LegalSplit, ModuleOf(NoAlias(Faulty(comps))))])>>)
 \* both verdicts must occur (vacuity guard, checked by the glue on the exported set)
 
 \* ---- judge ------------------------------------------------------------------------
